@@ -65,7 +65,67 @@ def confirm(v):
         sch = [[{'var': 'Major'}, {'uint': v['literal']}], [], []]
         r = d.call(op='bump', schema=sch, vars={'major': 1}, overrides={}, bumps={}, ov_label=None, bp_label=None, ov_core=[], bp_core=['1=4294967295'], ov_extra_core=[], bp_extra_core=[], ov_build=[], bp_build=[])
         return 'panic' in r, '--bump-core 1=4294967295 on uint(%d) -> %s' % (v['literal'], r.get('panic', r.get('schema', '')[:80]))
+    if site == 'git_fault':
+        return confirm_git_fault(v)
     return False, 'unknown site'
+
+
+GIT_WRAPPER = '''#!/bin/bash
+# git wrapper for fault replay: the call whose index (in issue order) equals .git/verif_fault fails like a dying git
+if [ -f .git/verif_fault ]; then
+  n=$(cat .git/verif_count 2>/dev/null || echo 0); echo $((n+1)) > .git/verif_count
+  if [ "$n" = "$(cat .git/verif_fault)" ]; then echo "fatal: injected failure" >&2; exit 128; fi
+fi
+exec %s "$@"
+'''
+_FD = [None]
+
+
+def fault_driver():
+    import shutil
+    if _FD[0] is None:
+        wdir = os.path.join(os.path.dirname(os.path.dirname(HERE)), 'build', 'gitwrap')
+        os.makedirs(wdir, exist_ok=True)
+        with open(os.path.join(wdir, 'git'), 'w') as f:
+            f.write(GIT_WRAPPER % shutil.which('git'))
+        os.chmod(os.path.join(wdir, 'git'), 0o755)
+        _FD[0] = native.Driver(env={'PATH': wdir + ':' + os.environ.get('PATH', '')})
+    return _FD[0]
+
+
+def run_with_fault(desc, fmt, idx):
+    import gitlib
+    d, hs = gitlib.build_repo(desc)
+    try:
+        with open(os.path.join(d, '.git', 'verif_fault'), 'w') as f:
+            f.write(str(idx))
+        return fault_driver().call(op='git_vcs', path=d, fmt=fmt)
+    finally:
+        gitlib.remove(d)
+
+
+def confirm_git_fault(v):
+    import gitlib
+    # the native run issues the same git calls in the same order; to be robust against a differing count the
+    # neighbouring indices are tried as well
+    for ann in (False, True):
+        desc = gitlib.desc_of_world(v['world'], annotated=ann)
+        for idx in [v['fail_at']] + [i for i in range(0, v.get('calls', 0) + 3) if i != v['fail_at']]:
+            r = run_with_fault(desc, v['fmt'], idx)
+            if 'panic' in r:
+                return True, 'git call #%d (%s) failing on tags=%s fmt=%s -> %s' % (idx, ' '.join((v.get('failed') or [0, ['?']])[1][:3]), v['world']['tags'], v['fmt'], r['panic'])
+    return False, 'git fault at call #%d on tags=%s: no panic natively (%s)' % (v['fail_at'], v['world']['tags'], v['detail'])
+
+
+def validate_fault_replay(ck):
+    """the replay mechanism itself (git wrapper) is exercised on every run: a real repository with an injected failure of
+    call #0 must come back as an error, and without a reachable index as success"""
+    desc = dict(commits=[(0, [])], head=0, branch='main', side={}, tags={'v1.0.0': (0, False)}, dates={0: 1_600_000_000}, dirty=None)
+    r0 = run_with_fault(desc, 'semver', 0)
+    r9 = run_with_fault(desc, 'semver', 99)
+    ck.validated += 2
+    if r0.get('ok') or 'panic' in r0 or not r9.get('ok'):
+        ck.fail_inconclusive('git fault wrapper does not behave as expected: %r / %r' % (r0, r9))
 
 
 def classify(v):
@@ -98,8 +158,8 @@ def main():
     ck.bounds = dict(derive_short_hash='commit hashes of 0..%d chars over ASCII + non-ASCII representatives' % N,
                      template_functions='prefix/hash/hash_int with values of 0..3(4) chars and any length 0..40; sanitize with max_length 0..6; format_timestamp with EVERY format string of 0..3(4) chars (symbolic) and any second 1970-2199',
                      from_semver='%d pre-release identifier lists of length <= %d over {epoch, post, dev, alpha, rc, x, number}' % (len(shapes), 3 if quick else 4),
-                     custom_values='dotted keys of up to 4 (5) chars over {a,b,c,s,n,.,0,1,2,9,x} into a nested JSON object with an array, an object, a string and null', bump_overflow='each by-name bump with any u32 amount on start values up to 2^64-1; index bump of a uint literal up to 2^64-1')
-    ck.outside = ['argument-vector parsing (clap), stdout/stderr separation and the exit status of the process', 'git sub-command fault sequences', 'RON/JSON parsing of stdin (library code)',
+                     custom_values='dotted keys of up to 4 (5) chars over {a,b,c,s,n,.,0,1,2,9,x} into a nested JSON object with an array, an object, a string and null', git_fault='get_vcs_data + vcs_data_to_zerv_vars against the C02 git stub (chains of 1..3 commits and a diamond, 3-4 tag menus with every placement symbolic), the git call with a solver-chosen index 0..40 fails', bump_overflow='each by-name bump with any u32 amount on start values up to 2^64-1; index bump of a uint literal up to 2^64-1')
+    ck.outside = ['argument-vector parsing (clap), stdout/stderr separation and the exit status of the process', 'more than one failing git sub-command per run, git printing malformed output with a zero status', 'RON/JSON parsing of stdin (library code)',
                   'panic paths inside the other properties\' executions are reported by those checks']
     ck.assumptions = ['chrono strftime item validity mirrors StrftimeItems::parse_next_item of the locked chrono 0.4.43 (read from the registry source)', 'python std models']
     cands = []
@@ -116,6 +176,11 @@ def main():
     cands += ck.absorb('get_custom_value never panics on nested JSON', ex, expect_tags=['returned'])
     ex = engine.explore('c13', 'path_uint_literal_overflow', [0], jobs=ck.jobs, deadline=dl(120))
     cands += ck.absorb('uint literal bump never overflows', ex)
+    gcases = c13.git_fault_cases(ck.tier)
+    ex = engine.explore('c13', 'path_git_fault', gcases, jobs=ck.jobs, deadline=dl(600 if quick else 3000))
+    cands += ck.absorb('any single git sub-command failing: extraction returns Ok or Err, never panics', ex, bounds=dict(configs=len(gcases)),
+                       expect_tags=['no_fault_reached', 'returned_ok', 'returned_err', 'vars_returned', 'fault:rev-parse HEAD', 'fault:status --porcelain', 'fault:rev-list --count'])
+    validate_fault_replay(ck)
     seen = set()
     for v in cands:
         key = json.dumps(v, sort_keys=True, default=str)
